@@ -25,7 +25,8 @@
      the operations that acquire a file;
    - uint16(counter) file keys are not reduced mod 2^16 (fewer than 65536 files);
    - index persistence (indexPersist) and the persist timing are not modelled (C02);
-   - sequential histories: the "repêchage" re-search in Delete is the identity. *)
+   - histories are sequential except for [DeleteC]: writer operations that run while
+     DB.Delete executes its offset resolvers (the window the "repêchage" exists for). *)
 From stdpp Require Import gmap.
 From Coq Require Import ZArith NArith List Bool.
 From Synnax Require Import Common.Telem.
@@ -286,13 +287,26 @@ Definition with_writer (st : db) (w : N) (wr : writer) : db :=
 Definition cfg_domain (start end_ : Z) : TimeRange :=
   if ts_is_zero end_ then ts_span_range start 0 else mkTR start end_.
 
-(* Operations of a history.  [key] is the file-choice oracle (see [acquire]). *)
+(* The writer operations; they may also run inside a resolver of Delete (see [DeleteC]).
+   [key] is the file-choice oracle (see [acquire]). *)
+Inductive wop :=
+| WOpen (w : N) (start end_ : Z) (key : N)
+| WWrite (w : N) (data : list N)
+| WCommit (w : N) (end_ : Z) (key : N)
+| WClose (w : N).
+
+(* Operations of a history. *)
 Inductive op :=
 | Open (w : N) (start end_ : Z) (key : N)
 | Write (w : N) (data : list N)
 | Commit (w : N) (end_ : Z) (key : N)
 | Close (w : N)
-| Delete (a b : Z).
+| Delete (a b : Z)
+(* Delete(a,b) during which other writers act: [sops] run while the start-offset resolver
+   is executing, [eops] while the end-offset resolver is executing (DB.Delete holds no
+   index lock during the resolvers; a resolver only runs when the bound lies inside a
+   domain).  Delete a b behaves as DeleteC a b [] [] (DomainInv.delete_c_nil). *)
+| DeleteC (a b : Z) (sops eops : list wop).
 
 (* func (w WriterConfig) Validate() error; true = passes.
    v.Ternary("end", !w.End.IsZero() && w.End.Before(w.Start), ...); return v.Error() *)
@@ -507,6 +521,68 @@ Definition delete (rs re : resolver) (ps : list pointer) (a b : Z) : list pointe
 Definition lin_resolver : resolver := fun ds ts => Some (ts - ds, ts).
 
 (* ------------------------------------------------------------------ histories *)
+Definition wstep (st : db) (x : wop) : db * res :=
+  match x with
+  | WOpen w s e k => open_writer st w s e k
+  | WWrite w d => write st w d
+  | WCommit w e k => commit st w e k
+  | WClose w => close_writer st w
+  end.
+Fixpoint wrun (st : db) (ws : list wop) : db :=
+  match ws with [] => st | x :: rest => wrun (fst (wstep st x)) rest end.
+Fixpoint wtrace (st : db) (ws : list wop) : list (db * res) :=
+  match ws with [] => [] | x :: rest => let sr := wstep st x in sr :: wtrace (fst sr) rest end.
+
+Definition ptr_eqb (p q : pointer) : bool :=
+  tr_eqb (p_tr p) (p_tr q) && (p_file p =? p_file q)%N && (p_off p =? p_off q)%N &&
+  (p_size p =? p_size q)%N.
+
+(* "Repêchage" of DB.Delete, under the index write lock: the positions found before the
+   resolvers ran are re-resolved when the index changed underneath.
+     if pointers[startDomain] != start { startDomain, exact = search(start.TimeRange);
+                                         if !exact { startDomain += 1 } }
+     if pointers[endDomain] != end { endDomain, _ = search(end.TimeRange) }
+   (an index that only grew cannot make pointers[startDomain] go out of range) *)
+Definition repechage_start (ps : list pointer) (sd : Z) (s : pointer) : Z :=
+  match getp ps sd with
+  | Some x => if ptr_eqb x s then sd
+              else let '(i, exact) := usearch ps (p_tr s) in if exact then i else i + 1
+  | None => let '(i, exact) := usearch ps (p_tr s) in if exact then i else i + 1
+  end.
+Definition repechage_end (ps : list pointer) (ed : Z) (e : pointer) : Z :=
+  match getp ps ed with
+  | Some x => if ptr_eqb x e then ed else fst (usearch ps (p_tr e))
+  | None => fst (usearch ps (p_tr e))
+  end.
+
+(* DB.Delete with the linear resolvers and writer operations running inside them.
+   Returns the final state, the result of Delete, and the states/results of the nested
+   operations that ran (in order). *)
+Definition delete_c (st : db) (a b : Z) (sops eops : list wop) : db * res * list (db * res) :=
+  let ps0 := d_ptrs st in
+  let called1 := snd (usearch ps0 (ts_span_range a 0)) in
+  match delete_start lin_resolver ps0 a with
+  | inr r => (st, r, [])
+  | inl None => (st, ROk, [])
+  | inl (Some (sd, s, so, a')) =>
+      let tr1 := if called1 then wtrace st sops else [] in
+      let st1 := if called1 then wrun st sops else st in
+      let ps1 := d_ptrs st1 in
+      let called2 := snd (usearch ps1 (ts_span_range b 0)) in
+      match delete_end lin_resolver ps1 b with
+      | inr r => (st1, r, tr1)
+      | inl None => (st1, ROk, tr1)
+      | inl (Some (ed, e, eo, b')) =>
+          let tr2 := if called2 then wtrace st1 eops else [] in
+          let st2 := if called2 then wrun st1 eops else st1 in
+          let ps2 := d_ptrs st2 in
+          let sd' := repechage_start ps2 sd s in
+          let ed' := repechage_end ps2 ed e in
+          let '(ps', r) := delete_apply ps2 sd' s so a' ed' e eo b' in
+          (with_ptrs st2 ps', r, tr1 ++ tr2)
+      end
+  end.
+
 Definition step (st : db) (o : op) : db * res :=
   match o with
   | Open w s e k => open_writer st w s e k
@@ -515,6 +591,14 @@ Definition step (st : db) (o : op) : db * res :=
   | Close w => close_writer st w
   | Delete a b =>
       let '(ps', r) := delete lin_resolver lin_resolver (d_ptrs st) a b in (with_ptrs st ps', r)
+  | DeleteC a b sops eops => fst (delete_c st a b sops eops)
+  end.
+
+(* states/results of the operations that ran inside the resolvers of [o] *)
+Definition step_nested (st : db) (o : op) : list (db * res) :=
+  match o with
+  | DeleteC a b sops eops => snd (delete_c st a b sops eops)
+  | _ => []
   end.
 
 Fixpoint run (st : db) (ops : list op) : db :=
